@@ -101,6 +101,12 @@ func (w *Worker) harnessIntrinsic(st *State, f *Frame, x ssa.Value, name string,
 			panic(engineErr("verifAssert id must be constant"))
 		}
 		w.assert(st, id, args[1].(Term))
+	case "verifOption":
+		id, _ := constString(args[0])
+		if st.opts == nil {
+			st.opts = map[string]bool{}
+		}
+		st.opts[id] = true
 	case "verifReach":
 		id, _ := constString(args[0])
 		w.job.mu.Lock()
@@ -198,6 +204,12 @@ func (w *Worker) harnessIntrinsic(st *State, f *Frame, x ssa.Value, name string,
 		}
 		p.stdinLines = len(p.lineText)
 		p.stdinNL = true
+	case "verifSetStdinFinalNewline":
+		b, ok := args[0].(Term).boolVal()
+		if !ok {
+			panic(engineErr("verifSetStdinFinalNewline: concrete flag expected"))
+		}
+		w.proc(st).stdinNL = b
 	case "verifStdinLine":
 		set(stdinLine(int(intArg(0))))
 	case "verifStdinPos":
